@@ -117,6 +117,12 @@ class _ValWorld(World):
     if d.startswith('.'):
       if d == '.format':
         return '<message>'
+      if d in ('.ravel', '.flatten', '.squeeze') and tg(recv) == 'arr' and \
+              recv[1] == ('raw', 2) and self.shape_of(recv)[1] == 1:
+        return S('arr', ('raw', 1), recv[2])
+      if d == '.reshape' and tg(recv) == 'arr' and args in ([-1], [(-1,)]) \
+              and recv[1] == ('raw', 2) and self.shape_of(recv)[1] == 1:
+        return S('arr', ('raw', 1), recv[2])
       return NotImplemented
     short = d.rsplit('.', 1)[-1]
     if short in ('check_array', 'check_X_y') and 'sklearn' in d:
@@ -210,6 +216,9 @@ def _scenarios():
             for t, ts in ((2, 2), (3, 2), (2, 3), (4, 4), (3, None),
                           (4, 2)):
               out.append(dict(base, t=t, tuple_size=ts))
+          if y is None and kind in ('tuples', 'classic'):
+            # a single feature: formed data that looks like a column
+            out.append(dict(base, d=1))
           if y is None:
             out.append(dict(base, strict='nonfinite'))
             out.append(dict(base, minf=5))
@@ -307,7 +316,7 @@ def rule_validation_table(repo, rep):
     env = dict((k, v) for k, v in env.items() if k in ps)
     want = _expected(sc)
     tag = ', '.join('%s=%s' % (k, sc[k]) for k in (
-        'kind', 'ndim', 'pre', 'y', 't', 'tuple_size', 'minf', 'strict'))
+        'kind', 'ndim', 'pre', 'y', 't', 'd', 'tuple_size', 'minf', 'strict'))
     clause = 'malformed-rejected' if want[0] == 'raise' else 'well-formed-' \
         'accepted'
     it = Interp(repo, f, w)
